@@ -61,7 +61,7 @@ func (p *Prog) classifyErrorUses(callees map[string]bool, scope func(*Func) bool
 				}
 				u.Kind = classifyBound(p, fn, info, par, st, obj)
 			case *ast.IfStmt, *ast.CallExpr, *ast.BinaryExpr, *ast.UnaryExpr:
-				u.Kind = "tested" // used directly inside an expression / condition
+				u.Kind = "tested"
 			case *ast.GoStmt, *ast.DeferStmt:
 				u.Kind = "dropped-stmt"
 			default:
@@ -70,6 +70,7 @@ func (p *Prog) classifyErrorUses(callees map[string]bool, scope func(*Func) bool
 			out = append(out, u)
 			return true
 		})
+
 	}
 	sort.Slice(out, func(i, j int) bool { return out[i].Call.Pos() < out[j].Call.Pos() })
 	return out
@@ -103,7 +104,7 @@ func classifyBound(p *Prog, fn *Func, info *types.Info, par map[ast.Node]ast.Nod
 		if id.Pos() < st.Pos() {
 			return true
 		}
-		// skip re-definitions
+
 		if as, ok := par[id].(*ast.AssignStmt); ok {
 			for _, l := range as.Lhs {
 				if l == ast.Expr(id) {
@@ -132,6 +133,7 @@ func classifyBound(p *Prog, fn *Func, info *types.Info, par map[ast.Node]ast.Nod
 		}
 		return true
 	})
+
 	// the statement right after the binding tests a DIFFERENT error variable
 	if blk, ok := par[st].(*ast.BlockStmt); ok {
 		for i, s2 := range blk.List {
@@ -209,6 +211,7 @@ func onlyLogs(p *Prog, fn *Func, info *types.Info, par map[ast.Node]ast.Node, ob
 		})
 		return true
 	})
+
 	return found && swallow
 }
 
